@@ -204,6 +204,11 @@ func (p *Pool) Put(x any) {
 	p.real.Lock()
 	p.items = append(p.items, x)
 	p.real.Unlock()
+	// ... and a scheduling point right AFTER the item is back in the pool: the returning thread may still hold
+	// references into it (a slice of a pooled buffer); whoever runs now can Get the same item and overwrite it
+	if vsched.Active() {
+		vsched.SyncPoint(fmt.Sprintf("pool-released:%p", p))
+	}
 }
 
 // ResetPools empties every pool created so far.
